@@ -477,3 +477,39 @@ def run_overlay_test(binp, test, cases, rundir, timeout=900, env=None, tag="case
     if rc != 0:
         return res, "harness rc=%d: %s" % (rc, (o + err).decode(errors="replace")[-3000:])
     return res, None
+
+
+def run_under_pty(argv, env, cwd, timeout=600, rows=50, cols=200):
+    """Run a command with a fresh pseudo-terminal as its controlling terminal; returns (rc, output bytes)."""
+    import pty, fcntl, termios, struct, select, signal
+    pid, fd = pty.fork()
+    if pid == 0:
+        try:
+            os.chdir(cwd)
+            os.execvpe(argv[0], argv, env)
+        finally:
+            os._exit(127)
+    fcntl.ioctl(fd, termios.TIOCSWINSZ, struct.pack("HHHH", rows, cols, 0, 0))
+    out, t0 = b"", time.time()
+    while True:
+        if time.time() - t0 > timeout:
+            os.kill(pid, signal.SIGKILL)
+            os.waitpid(pid, 0)
+            return 124, out
+        r, _, _ = select.select([fd], [], [], 0.2)
+        if r:
+            try:
+                d = os.read(fd, 65536)
+            except OSError:
+                d = b""
+            if not d:
+                break
+            out += d
+        else:
+            p, st = os.waitpid(pid, os.WNOHANG)
+            if p:
+                os.close(fd)
+                return (os.waitstatus_to_exitcode(st), out)
+    p, st = os.waitpid(pid, 0)
+    os.close(fd)
+    return os.waitstatus_to_exitcode(st), out
